@@ -726,13 +726,14 @@ impl Check for C08 {
             Workload { name: "generative-post", quick: 6000, thorough: 600_000 },
             Workload { name: "generative-pre", quick: 2000, thorough: 200_000 },
             Workload { name: "remaining-length-classes", quick: 36, thorough: 36 },
+            Workload { name: "torn-packet-then-reconnect", quick: 1500, thorough: 150_000 },
         ]
     }
     fn min_nontrivial(&self, tier: Tier) -> usize {
         if tier == Tier::Quick { 500 } else { 5000 }
     }
     fn required_counters(&self) -> Vec<&'static str> {
-        vec!["mustaccept_frames", "mustreject_frames", "bad_headers", "publishes_delivered_verbatim", "acks_matching_inflight", "connacks_accepted_verbatim", "exhaustive_inputs", "exact_fit_mustaccept_frames", "connects_after_refused_handshake", "length_class_boundary_frames"]
+        vec!["mustaccept_frames", "mustreject_frames", "bad_headers", "publishes_delivered_verbatim", "acks_matching_inflight", "connacks_accepted_verbatim", "exhaustive_inputs", "exact_fit_mustaccept_frames", "connects_after_refused_handshake", "length_class_boundary_frames", "reconnects_after_a_torn_packet"]
     }
     fn exhaustive(&self) -> bool {
         true
@@ -837,6 +838,63 @@ impl Check for C08 {
                     out.count("exhaustive_inputs", 1);
                     one_post(&s, Chunk::All, true, &mut out, "post");
                     one_pre(&s, Chunk::All, &mut out);
+                }
+            }
+            6 => {
+                // a connection ends silently (handle dropped, or connect() given up) when only the
+                // first k bytes of a valid packet have been read; the same Session is connected
+                // again: the new CONNACK and the packets after it are judged like any others
+                RX_CELL.with(|c| c.set(*rng.pick(&[96usize, 128, 200])));
+                let pre = rng.chance(1, 3);
+                let torn = rc::encode_server(&rand_valid(&mut rng, !pre));
+                if torn.len() < 2 {
+                    return out;
+                }
+                let k = 1 + rng.below(torn.len() - 1);
+                let chunk = *rng.pick(&[Chunk::All, Chunk::One, Chunk::Rand, Chunk::Fixed(2)]);
+                let cfg = CaseCfg { rx: rx(), tx: 512, keepalive: 0, ..CaseCfg::default() };
+                let mut steps = vec![];
+                if pre {
+                    // the CONNACK itself is torn: connect() waits for the rest and is given up
+                    steps.push(Step::Connect(ConnectSpec { policy: IoPolicy { read: chunk, ..IoPolicy::default() }, faults: vec![], connack: ConnackSpec::Raw(torn[..k].to_vec()), broker: BrokerPolicy::default(), cancel_at: None }));
+                } else {
+                    steps.push(Step::Connect(ConnectSpec { policy: IoPolicy { read: chunk, ..IoPolicy::default() }, faults: vec![], connack: ConnackSpec::ok(SpMode::Force(false)), broker: BrokerPolicy { acks: AckMode::Never, ping: AckMode::Never, fail_pct: 0, longform_pct: 0 }, cancel_at: None }));
+                    steps.push(Step::Broker(BrokerAct::SendRaw(torn[..k].to_vec())));
+                    steps.push(poll0());
+                    steps.push(if rng.chance(1, 4) { Step::ForgetConn } else { Step::DropConn });
+                }
+                let next = rc::encode_server(&rand_valid(&mut rng, true));
+                let second_at = steps.len();
+                steps.push(Step::Connect(ConnectSpec { policy: IoPolicy { read: chunk, ..IoPolicy::default() }, faults: vec![], connack: ConnackSpec::ok(SpMode::Honest), broker: BrokerPolicy { acks: AckMode::Never, ping: AckMode::Never, fail_pct: 0, longform_pct: 0 }, cancel_at: None }));
+                steps.push(Step::Broker(BrokerAct::SendRaw(next.clone())));
+                for _ in 0..3 {
+                    steps.push(poll0());
+                }
+                let (log, world) = run_script(&cfg, steps, seed);
+                let w = world.borrow();
+                let t = Trace::new(&log, &w);
+                out.evaluations += 1;
+                let before = out.violations.len();
+                let first_torn = log.ops.iter().find(|o| o.step < second_at && o.kind == "connect").map(|o| o.outcome.clone());
+                let torn_read = w.conns.first().is_some_and(|c| c.in_read > 0 && (pre || c.in_read > c.in_pkts.first().map(|p| p.raw_len).unwrap_or(0)));
+                if let Some(op) = log.ops.iter().find(|o| o.step == second_at) {
+                    if torn_read {
+                        out.count("reconnects_after_a_torn_packet", 1);
+                        out.key(format!("torn/{}/{:02x}", if pre { "connack" } else { "post" }, torn[0] >> 4));
+                        out.nontrivial.push(hash_of(&(pre, torn[0], k.min(6), next[0], format!("{:?}", chunk))));
+                    }
+                    if !matches!(op.outcome, Outcome::Ok(_)) {
+                        out.violations.push(viol("C08", "C08/valid-rejected/CONNACK-after-torn-packet", format!("{} bytes of a valid {} were read before the connection ended silently (first connect: {:?}); the next connect() over a healthy transport answered by a plain CONNACK returned {:?}", k, if pre { "CONNACK" } else { "packet" }, first_torn, op.outcome)));
+                    } else {
+                        let ci = w.conns.len() - 1;
+                        let judged = vec![Judged { class: match rc::classify_server(&next, rx()) { Class::MustAccept(SPacket::ConnAck { .. }) => Class::DontCare("CONNACK after the handshake"), c => c }, frame: next.clone() }];
+                        judge(&t, ci, &judged, None, 0, &mut out, "after-torn");
+                    }
+                }
+                if verbose && out.violations.len() > before {
+                    for l in render(&log, &w, 400) {
+                        println!("{}", l);
+                    }
                 }
             }
             5 => {
